@@ -237,7 +237,7 @@ class Outcome:
         "notes", "bad_progress", "tasks_at_raise", "identity_violations", "input_changes",
         "events_digest", "events", "fired", "probes", "deliveries", "sim_time", "decisions",
         "n_results", "worker_notes", "stall_injected", "max_task_dur", "startup_total",
-        "tasks_submitted", "result", "skipped", "completions",
+        "tasks_submitted", "result", "skipped", "completions", "steps_at_raise", "steps_total",
     )
 
     def __init__(self):
@@ -280,6 +280,7 @@ DEFAULT_CONFIG = {
     "shared_memory": False,
     "callbacks": 1,
     "extra_kwargs": None,
+    "settle": True,
 }
 
 
@@ -362,9 +363,11 @@ def run_entry(workload, config=None, decisions=None, cache=None, keep_result=Fal
     try:
         with seams.active(sim, backend=cfg["backend"]):
             # start every run from a settled progress state
-            with progress.Progress("sim", total=1):
-                pass
+            if cfg.get("settle", True):
+                with progress.Progress("sim", total=1):
+                    pass
             del monitor.notes[:]
+            seams.PROGRESS_STEPS = 0
             try:
                 result = entry(*pos, **kwargs)
                 out.status = "ok"
@@ -393,6 +396,7 @@ def run_entry(workload, config=None, decisions=None, cache=None, keep_result=Fal
                 out.exc_is_lib = isinstance(e, lib_exceptions())
                 out.exc_injected = isinstance(e, simpool.InjectedFault)
                 out.tasks_at_raise = sim.tasks_submitted
+                out.steps_at_raise = seams.PROGRESS_STEPS
     finally:
         for h in handles:
             progress.unregister(h)
@@ -407,6 +411,7 @@ def run_entry(workload, config=None, decisions=None, cache=None, keep_result=Fal
     out.probes = dict(sim.probes)
     out.deliveries = [(s, tuple(d)) for s, d in sim.deliveries]
     out.sim_time = sim.now
+    out.steps_total = seams.PROGRESS_STEPS
     out.completions = [(j.site, j.completion_order()) for j in sim.jobs]
     out.decisions = decisions.log
     out.worker_notes = len(sim.worker_notifications)
